@@ -345,9 +345,36 @@ def work(payload):
     return acc
 
 
+def env_work(payload):
+    """Every 9th selection of every 4th output, inside another interpreter environment (python -O strips assert statements: reading a
+    subset of the variables must not depend on them)."""
+    acc = Acc()
+    labels = list(outputs(False))
+    for li, label in enumerate(labels):
+        if li % 4 != 1:
+            continue
+        out = build(label)
+        for j, (kind, arg) in enumerate(selections(out, False)):
+            if j % 9 != 0:
+                continue
+            problems = run_case(label, kind, arg)
+            acc.case(nontrivial=True, outcome="ok" if not problems else "violation")
+            for sig, det in problems:
+                acc.violation("C13:" + sig, (li, j), {"output": label, "kind": kind, "arg": arg}, det)
+        _FULL.pop(label, None)
+    return acc
+
+
+def environment_replay(payload):
+    return replay_sigs(payload["case"])
+
+
 def run(ctx):
+    from ..runner import EnvironmentRuns
+
+    envruns = EnvironmentRuns(MOD, "env_work", ctx.base(), ("python-O", "PYTHONOPTIMIZE=2"))
     n = len(outputs(ctx.thorough))
-    acc = Acc.merged(ctx.pool.shards(MOD, "work", ctx.base(), nshards=n))
+    acc = Acc.merged(ctx.pool.shards(MOD, "work", ctx.base(), nshards=n) + envruns.results())
     cov = {
         "evaluations": acc.evaluations,
         "distinct_nontrivial": acc.nontrivial,
@@ -368,4 +395,8 @@ def run(ctx):
 
 
 def replay_sigs(case):
+    if case.get("environment"):
+        from ..runner import replay_in_environment
+
+        return replay_in_environment(MOD, case)
     return ["C13:" + s for s, _ in run_case(case["output"], case["kind"], case["arg"])]
